@@ -69,15 +69,14 @@ impl PhysicalOptimizerRule for EnsureCooperative {
     ) -> Result<Arc<dyn ExecutionPlan>> {
         use std::cell::RefCell;
 
-        let ancestry_stack = RefCell::new(Vec::<(SchedulingType, EvaluationType)>::new());
+        let ancestry_stack = RefCell::new(Vec::<SchedulingType>::new());
 
         plan.transform_down_up(
-            // Down phase: Push parent properties <SchedulingType, EvaluationType> into the stack
+            // Down phase: Push the parent's SchedulingType into the stack
             |plan| {
-                let props = plan.properties();
                 ancestry_stack
                     .borrow_mut()
-                    .push((props.scheduling_type, props.evaluation_type));
+                    .push(plan.properties().scheduling_type);
                 Ok(Transformed::no(plan))
             },
             // Up phase: Wrap nodes with CooperativeExec if needed
@@ -89,20 +88,15 @@ impl PhysicalOptimizerRule for EnsureCooperative {
                 let is_leaf = plan.children().is_empty();
                 let is_exchange = props.evaluation_type == EvaluationType::Eager;
 
-                let mut is_under_cooperative_context = false;
-                for (scheduling_type, evaluation_type) in
-                    ancestry_stack.borrow().iter().rev()
-                {
-                    // If nearest ancestor is cooperative, we are under a cooperative context
-                    if *scheduling_type == SchedulingType::Cooperative {
-                        is_under_cooperative_context = true;
-                        break;
-                    // If nearest ancestor is eager, the cooperative context will be reset
-                    } else if *evaluation_type == EvaluationType::Eager {
-                        is_under_cooperative_context = false;
-                        break;
-                    }
-                }
+                // A cooperative ancestor only yields for the batches that reach it.
+                // The operators in between may consume any number of batches without
+                // producing one (a sort, an aggregation, a filter that rejects every
+                // row), so only a cooperative direct parent provides a cooperative
+                // context.
+                let is_under_cooperative_context = ancestry_stack
+                    .borrow()
+                    .last()
+                    .is_some_and(|parent| *parent == SchedulingType::Cooperative);
 
                 // Wrap if:
                 // 1. Node is a leaf or exchange point
